@@ -16,19 +16,20 @@ F = CFGF
 SUB2 = [Opt('int', b'z', 0, 1), Opt('strl', b'w', 0, None)]
 SUB = [Opt('int', b'a', 0, 1), Opt('intl', b'l', 0, b'{5}'), Opt('sec', b'in', F['MULTI'] | F['TITLE'], None, SUB2),
        Opt('sec', b'pl', 0, None, SUB2 + [Opt('sec', b'pp', 0, None, SUB2)]),      # plain sections created at init, two levels down
-       Opt('func', b'g', func='user:1')]
+       Opt('func', b'g', func='user:1'), Opt('strl', b'__unknown', 0, None)]
 SCHEMA = [Opt('int', b'i', 0, 7), Opt('str', b's', 0, b'd'), Opt('intl', b'il', 0, b'{1,2}'), Opt('sec', b'sec', 0, None, SUB),
           Opt('sec', b'm', F['MULTI'], None, SUB), Opt('bool', b'b', 0, 0), Opt('func', b'fn', func='user:0'),
           # a deprecated option (its notice is a diagnostic of the base text too), a dropped one, a free-form section
           Opt('int', b'old', F['DEPRECATED'], 1), Opt('intl', b'gone', F['DEPRECATED'] | F['DROP'], b'{1}'),
           Opt('sec', b'kv', F['KEYSTRVAL'], None, [Opt('int', b'lvl', 0, 2)]),
+          Opt('str', b'__unknown', 0, b'u0'),     # the name old versions used as a catch-all is an option like any other
           Opt('int', b'nc', F['NOCASE'], 3), Opt('sec', b'tn', F['MULTI'] | F['TITLE'] | F['NOCASE'], None, SUB2)]
 
 
 def unknown_item(r, depth):
     name = r.pick([b'unk', b'zz', b'new_opt', b'"quoted name"', b'x.y', b'unk', b'zz', b'""', b"''", b'${NOSUCHVAR}',
                    # names that are paths: through a declared section to nothing, through an instance that does not exist
-                   b'sec|zz', b'"m|zz"', b'"m=7|a"', b'"m=zzz|a"', b'sec|pl|zz', b'"in=nosuch|z"', b'"zz|a"', b'"kv|q"',
+                   b'sec|zz', b'"m|zz"', b'"m=7|a"', b'"m=zzz|a"', b'sec|pl|zz', b'"in=nosuch|z"', b'"zz|a"', b'"kv|q"', b'"i|zz"', b'"il|q"', b'"s|x|y"', b'"a|b"',
                    # case variants of options that carry CFGF_NOCASE themselves, in a case-sensitive context
                    b'NC', b'Tn', b'TN', b'Nc'])
     c = r.below(12)
